@@ -10,7 +10,7 @@ RULE = ('(a) algebra: deep before/after snapshot of every input of merge/embed/m
         'plus aliasing of result maps/lists with inputs; (b) retrieval under faults: for each scenario object the calls that '
         'cross from sigtools into outside code (scenarios: wraps chains, __signature__ attributes, every forwards_to_* form, modifiers, wrappers, partials, callable instances, an object whose __delattr__ is user code, ...) are numbered in a passive run, then the retrieval is re-run once per '
         '(crossing, exception class) with that crossing raising, and the attribute snapshot of every reachable object and the '
-        'as_forged recursion guard are compared with the initial ones. Scenarios include partial objects (their bound positionals and keywords are part of the snapshot), classes carrying __signature__ = as_forged, lru_cache objects, and modifiers wrappers whose raw function was re-signed afterwards. Algebra drivers also run on parameter lists with metadata; merge of a single signature is included. Non-trivial: an algebra call with inputs, or an '
+        'as_forged recursion guard are compared with the initial ones. Scenarios include partial objects (their bound positionals and keywords are part of the snapshot), classes carrying __signature__ = as_forged, lru_cache objects, and modifiers wrappers whose raw function was re-signed afterwards. Algebra drivers also run on parameter lists with metadata; merge and embed of a single signature are included. Non-trivial: an algebra call with inputs, or an '
         'injected run; distinct by (operation, inputs, outcome) resp. (scenario, crossing, exception class).')
 ASSUMPTIONS = ['fault model = exceptions raised by calls from sigtools into code outside sigtools (stated); setattr/delattr and container primitives are not failpoints',
                'apply_params without a sources argument keeps the input map by design of replace() (C14) and is checked for input immutability only']
@@ -45,6 +45,9 @@ def run(ctx):
     for pl in (mpool, w_alg.SigPool()):
         for params in w_alg.sigs.U(('a', 'b'), 2)[:60]:
             w_alg.call(S.merge, pl.sig(params))
+            # ... and embed of ONE signature, with each flag combination
+            for uva, uvk in ((True, True), (False, True), (True, False)):
+                w_alg.call(S.embed, pl.sig(params), use_varargs=uva, use_varkwargs=uvk)
     ctx.deadline = saved
     monitor.disable_all()
     from .. import w_fault
